@@ -131,7 +131,13 @@ struct CaseDirs {
     proj: PathBuf,
 }
 
+/// Case directories all have names of the same length: the project path is embedded in the debug
+/// info that the build writes, so its length changes how many `write` calls are made (observed),
+/// which would shift strace's per-name ordinals between the counting run and a faulty run.
 fn case_dirs(ctx: &Ctx, rk: RefKind, label: &str) -> CaseDirs {
+    if label.len() != 7 {
+        vhcore::machinery_failure(&format!("internal: case label `{label}` must have 7 characters"));
+    }
     let dir = ctx.work.join("cases").join(rk.as_str()).join(label);
     let _ = std::fs::remove_dir_all(&dir);
     let home = dir.join("home");
@@ -308,7 +314,7 @@ fn run_case(ctx: &Ctx, rk: RefKind, pts: &[Point], f: &Fault, second_at: Option<
 /// Clean run + two counting runs for one reference form. Returns the fault points.
 fn count_points(ctx: &Ctx, rk: RefKind, rep: &mut vhcore::Reporter) -> Result<Vec<Point>, String> {
     // clean run, no strace
-    let cd = case_dirs(ctx, rk, "clean");
+    let cd = case_dirs(ctx, rk, "clean00");
     let out = run_build_once(&ctx.exe, &cd.home, &cd.proj, None, &[], &cd.dir.join("stderr"), TIMEOUT);
     if !out.ok() {
         return Err(format!("fault-free build does not work for reference form `{}`: {}", rk.as_str(), out.short()));
@@ -323,7 +329,7 @@ fn count_points(ctx: &Ctx, rk: RefKind, rep: &mut vhcore::Reporter) -> Result<Ve
     }
     let mut seqs = vec![];
     for rnd in 0..2 {
-        let cd = case_dirs(ctx, rk, &format!("count{rnd}"));
+        let cd = case_dirs(ctx, rk, &format!("count0{rnd}"));
         let tf = cd.dir.join("trace");
         let out = run_build_once(&ctx.exe, &cd.home, &cd.proj, Some(&tf), &[], &cd.dir.join("stderr"), TIMEOUT);
         if !out.ok() {
@@ -372,7 +378,7 @@ fn run(a: &vhcore::Args) -> i32 {
     // which reference forms work offline (file:// URL)?
     let mut forms = vec![];
     for rk in RefKind::ALL {
-        let cd = case_dirs(&ctx, rk, "probe");
+        let cd = case_dirs(&ctx, rk, "probe00");
         let out = run_build_once(&ctx.exe, &cd.home, &cd.proj, None, &[], &cd.dir.join("stderr"), TIMEOUT);
         forms.push(json!({"reference": rk.as_str(), "fault_free_build": out.short(), "checkout": checkout_state(&cd.home, &ctx.sc).short()}));
         let _ = std::fs::remove_dir_all(&cd.dir);
@@ -440,14 +446,14 @@ fn run(a: &vhcore::Args) -> i32 {
         // reported at once instead of after the whole enumeration
         for fk in &fault_kinds {
             if let Some(i) = faults.iter().position(|f| f.kind == *fk) {
-                let r = run_case(&ctx, rk, &pts, &faults[i], None, &format!("preflight-{}", fk.as_str()), false);
+                let r = run_case(&ctx, rk, &pts, &faults[i], None, &format!("pre{:>4}", &fk.as_str()[..fk.as_str().len().min(4)]).replace(' ', "_"), false);
                 if let Some(m) = r.machinery {
                     vhcore::machinery_failure(&format!("pre-flight: {m}"));
                 }
             }
         }
         let results: Vec<CaseResult> = vhcore::par_map_idx(faults.len(), a.jobs, |i| {
-            run_case(&ctx, rk, &pts, &faults[i], None, &format!("s{i}"), false)
+            run_case(&ctx, rk, &pts, &faults[i], None, &format!("s{i:06}"), false)
         });
         let mut sampled: BTreeSet<String> = BTreeSet::new();
         for (f, r) in faults.iter().zip(results.iter()) {
@@ -490,7 +496,7 @@ fn run(a: &vhcore::Args) -> i32 {
             }
             rep.set("pair_faults_planned", pf.len() as u64);
             let pres: Vec<CaseResult> = vhcore::par_map_idx(pf.len(), a.jobs, |i| {
-                run_case(&ctx, rk, &pts, &pf[i].0, Some(&pf[i].1), &format!("p{i}"), false)
+                run_case(&ctx, rk, &pts, &pf[i].0, Some(&pf[i].1), &format!("p{i:06}"), false)
             });
             for ((f, nx), r) in pf.iter().zip(pres.iter()) {
                 if let Some(m) = &r.machinery {
@@ -588,14 +594,14 @@ fn replay(a: &vhcore::Args) -> i32 {
     let mut f = Fault { kind: fk, point: pi, second: None };
     let mut second_at = None;
     if rp["second"].is_object() {
-        let first = run_case(&ctx, rk, &pts, &f, None, "replay-first", true);
+        let first = run_case(&ctx, rk, &pts, &f, None, "replay1", true);
         if let Some(m) = first.machinery {
             vhcore::machinery_failure(&m);
         }
         second_at = first.next.clone();
         f.second = FaultKind::parse(rp["second"]["fault"].as_str().unwrap_or(""));
     }
-    let r = run_case(&ctx, rk, &pts, &f, second_at.as_ref(), "replay", true);
+    let r = run_case(&ctx, rk, &pts, &f, second_at.as_ref(), "replay0", true);
     if let Some(m) = r.machinery {
         vhcore::machinery_failure(&m);
     }
@@ -609,7 +615,7 @@ fn replay(a: &vhcore::Args) -> i32 {
     println!("checkout after the fault: {}", r.state_before);
     println!("recovery run: {}", r.recovery);
     println!("checkout after recovery: {}", r.state_after);
-    println!("case directory kept at {}", ctx.work.join("cases").join(rk.as_str()).join("replay").display());
+    println!("case directory kept at {}", ctx.work.join("cases").join(rk.as_str()).join("replay0").display());
     match r.violation {
         Some((key, what)) => {
             println!("still violates: key={key}\n  {what}");
